@@ -10,7 +10,7 @@ from pyvc.state import fresh_id
 from pyvc.unit import UNITS, unit
 from pyvc.values import SV, DictObj, ListObj, Obj, Opaque, Ref, SetObj
 
-from . import c05, c07, c08, c11, c12, c16, c18  # noqa: F401  (registers the units reused below)
+from . import c05, c07, c08, c09, c11, c12, c13, c14, c15, c16, c18  # noqa: F401  (registers the units reused below)
 from .c12 import nf_body_literal, wf_rule_or_minimize
 from .common import no_raise, returned, wf_of
 
@@ -20,6 +20,10 @@ REUSED = [
     "C08.superseeded", "C08.create_mappings", "C08.transitive_closure", "C08.true", "C08.false", "C08.remove_true_literals", "C08.contains_false",
     "C11.inequalities", "C11.unequal",
     "C12.AggAnalytics.init", "C12.AggAnalytics.guaranteed_leq", "C12.AggAnalytics.guaranteed_geq", "C12.minmax_agg", "C12.process_rule", "C12.replace_orig",
+    "C09.remove_unused", "C09.interface-positions-used",
+    "C13.calc_at_most_on_rule",
+    "C14.to_sympy",
+    "C15.inline_minimize", "C15.compute_new_body_elements", "C15.inline_body_aggregate",
     "C16.good_split",
     "C18.auto_detect_input", "C18.auto_detect_output",
 ]
